@@ -69,7 +69,7 @@ Proof. exact get_marked_indep. Qed.
 Print Assumptions C16_marked_reads_marks_only.
 
 (* The cursor part of the property, REFUTED on the current code (K2): the cursor map is keyed by
-   the assumption list only and shared by all models of the process.  Two different well-formed
+   the assumption set only and shared by all models of the process.  Two different well-formed
    circuits over the same features, one page of C1, then the first page of C2 with the same cursor
    map: C2's page starts where C1's cursor stopped. *)
 Theorem C16_cursor_shared_refuted : exists C1 C2 n A k,
@@ -77,7 +77,7 @@ Theorem C16_cursor_shared_refuted : exists C1 C2 n A k,
   let cur1 := snd (fst (enumerate (build C1 n) A k [] (fresh_scratch C1))) in
   let own_page := snd (enumerate (build C2 n) A k [] (fresh_scratch C2)) in
   let shared_page := snd (enumerate (build C2 n) A k cur1 (fresh_scratch C2)) in
-  cur_get cur1 (sort_abs A) = k /\
+  cur_get cur1 (enum_key A) = k /\
   own_page = Some (map sort_abs (slice 0 k (EOr C2 A))) /\
   shared_page = Some (map sort_abs (slice k (k + k) (EOr C2 A))) /\
   shared_page <> own_page.
